@@ -60,9 +60,13 @@ class Run:
         path = os.path.join(core.BUILD, f"{self.prop}-{tag}-{os.getpid()}.case")
         cases.write(path)
         rc, out, dt = core.run_impl(path)
+        ia, _ = core.parse_answers(out)
+        # the scan's schedule is an input of the model: pass the observed per-name order on
+        hints = {k: "hint scanorder " + a[len("ok order="):] for k, a in ia.items() if a.startswith("ok order=")}
+        if hints:
+            cases.write(path, hints)
         rc2, out2, dt2 = core.run_model(path)
         os.remove(path)
-        ia, _ = core.parse_answers(out)
         ma, sp = core.parse_answers(out2)
         if rc != 0:
             self.broken.append(f"harness exited with status {rc} (abort inside the implementation?)")
